@@ -4,6 +4,7 @@ mod bc;
 mod c07;
 mod ext;
 mod meta;
+mod mgr;
 mod util;
 
 fn main() {
@@ -20,6 +21,7 @@ fn main() {
         "meta" => meta::run(&lines),
         "resp" => meta::run_resp(&lines),
         "ext" => ext::run(&lines),
+        "mgr" => mgr::run(&lines),
         other => {
             eprintln!("unknown property {}", other);
             std::process::exit(2);
